@@ -437,3 +437,53 @@ class NodeRegionCode:
     def ensures_names_the_block_and_its_level(self, result):
         w = result[0]
         return ((w >> 24) == self.base_x and ((w >> 16) & 0xfc) == self.base_y and ((w >> 16) & 3) == self.level and (w & 0xffff) == 0)
+
+
+# ---- compress_flood_fill_regions: what is put into the tree, and in which order its pairs come out -----------------------------------
+from pyvc.values import ListV as _L12, ObjV as _O12, NONE as _N12, TRec as _TRec12   # noqa: E402
+
+
+def _tree_add(E, obj, args, kwargs, st, node):
+    s = st.copy()
+    s.trace = _L12(s.trace.items + (("add_core",) + tuple(args),))
+    return [(s, _N12, obj)]
+
+
+@contract("rig/machine_control/regions.py::compress_flood_fill_regions@forbody:1")
+class CompressAddsTheCoreNamed:
+    """one core of one chip of the targets: exactly that core of exactly that chip is added to the tree (once)"""
+    properties = ("C12",)
+    params = dict(t=_TRec12("RegionCoreTree"), x=TInt(0, 255), y=TInt(0, 255), p=TInt(0, 17))
+    fragment_result = ()
+    fragment_head = "for p in cores:"
+    externals = {"RegionCoreTree.add_core": _tree_add}
+    assumptions = ["RegionCoreTree.add_core (contracts AddCoreLevel0..3) is recorded"]
+
+    def native(x):
+        raise __import__("pyvc.replay", fromlist=["OutsideHarness"]).OutsideHarness()
+
+    def ensures_this_core_of_this_chip(x, y, p, _trace):
+        return len(_trace) == 1 and _trace[0] == ("add_core", x, y, p)
+
+
+def _tree_new(E, args, kwargs, st, node):
+    s = st.copy()
+    s.trace = _L12(s.trace.items + (("new_tree",) + tuple(args),))
+    return [(s, _O12("RegionCoreTree", {"ident": 61}))]
+
+
+@contract("rig/machine_control/regions.py::compress_flood_fill_regions@seq:0:1")
+class CompressStartsFromAnEmptyTree:
+    """every call starts from a NEW tree (nothing selected by an earlier call can leak into this one)"""
+    properties = ("C12", "C17")
+    params = dict()
+    fragment_result = ("t",)
+    fragment_head = "t = ..."
+    externals = {"class:RegionCoreTree": _tree_new}
+    assumptions = ["the RegionCoreTree constructor is recorded (a new tree selects nothing: bounded layer)"]
+
+    def native():
+        raise __import__("pyvc.replay", fromlist=["OutsideHarness"]).OutsideHarness()
+
+    def ensures_a_new_tree_made_without_arguments(result, _trace):
+        return len(_trace) == 1 and _trace[0] == ("new_tree",) and result[0].ident == 61
